@@ -512,6 +512,16 @@ impl<T: Tab + 'static> State<T> {
                 self.slots[d] = Some(self.get(a).clone());
                 ok(vec![a, d], None)
             }
+            "clone_from" => {
+                // Clone::clone_from into an EXISTING value (possibly of another size for Lut)
+                let a = arg_usize(op, "a");
+                let d = arg_usize(op, "d");
+                let src = self.get(a).clone();
+                let mut dst = self.get(d).clone();
+                dst.clone_from(&src);
+                self.slots[d] = Some(dst);
+                ok(vec![a, d], None)
+            }
             _ => panic!("HARNESS: unknown op {}", name),
         }
     }
